@@ -135,9 +135,53 @@ class StmtMixin(object):
                 if isinstance(c, Raised):
                     yield st2, ('raise', c.exc)
                     continue
+                if self.mergeable_if(s) and not isinstance(c, bool):
+                    merged = self.merged_if(s, st2, c, fr)
+                    if merged is not None:
+                        yield merged, FALL
+                        continue
                 for st3, b in self.branch(st2, c):
                     for r in self.exec_block(s.body if b else s.orelse, st3, fr):
                         yield r
+
+    def mergeable_if(self, s):
+        """`if c: d[K] = v` (no else; the body is one store into a subscript with constant key): the two outcomes differ
+        only in heap arrays and are joined into one state instead of doubling the paths"""
+        if s.orelse or len(s.body) != 1 or not isinstance(s.body[0], ast.Assign):
+            return False
+        a = s.body[0]
+        return len(a.targets) == 1 and isinstance(a.targets[0], ast.Subscript) and isinstance(a.targets[0].slice, ast.Constant) \
+            and isinstance(a.targets[0].value, ast.Name) and isinstance(a.value, (ast.Name, ast.Constant))
+
+    def merged_if(self, s, st, c, fr):
+        cz = z3.simplify(c)
+        if z3.is_true(cz) or z3.is_false(cz):
+            return None
+        st_t = st.assume(cz)
+        if not self.feasible(st_t) or not self.feasible(st.assume(z3.Not(cz))):
+            return None
+        outs = list(self.exec_block(s.body, st_t, fr))
+        if len(outs) != 1 or outs[0][1][0] != 'fall':
+            return None
+        sa = outs[0][0]
+        if set(sa.locals) != set(st.locals) or any(sa.locals[k] is not st.locals[k] for k in st.locals):
+            return None
+        if any(k.startswith('shadow:') or k.startswith('ddefault:') for k in set(sa.ghost) ^ set(st.ghost)):
+            return None
+        m = st.copy()
+        npc = len(st.pc) + 1
+        m.pc.extend(z3.Implies(cz, f) for f in sa.pc[npc:])
+        for k in sa.heap:
+            old = self.H(m, k) if k not in st.heap else st.heap[k]
+            if k in ('next', 'cls') and not sa.heap[k].eq(old):
+                return None         # an allocation inside the branch: not merged
+            if not sa.heap[k].eq(old):
+                m.heap[k] = z3.If(cz, sa.heap[k], old)
+        # a dict whose key set the engine tracks loses that tracking for the conditionally stored key
+        for k in list(m.ghost):
+            if k.startswith('shadow:') and sa.ghost.get(k) != st.ghost.get(k):
+                del m.ghost[k]
+        return m
 
     # ------------------------------------------------------------------ assignment
     def st_Assign(self, s, st, fr):
